@@ -175,10 +175,13 @@ def check(tier, seed):
             n, es, _ = lib.parse_graph_tokens(t, 2)
             f = lib.fields(o, KEYS)
             try:
-                scan = recover_scan(es, [int(x) for x in f["RET"]], [int(x) for x in f["DROP"]])
+                # kind M: the model driver recovers the scan order itself with the extracted merge_scan (SpannerModel.v) from the observed sequences
+                ret, drop = [int(x) for x in f["RET"]], [int(x) for x in f["DROP"]]
+                if any(not 0 <= e < len(es) for e in ret + drop): raise ValueError
+                mcases.append("M %s %d %s %d %s" % (" ".join(t[1:]), len(ret), " ".join(map(str, ret)), len(drop), " ".join(map(str, drop))))
             except Exception:
                 scan = sorted(range(len(es)), key=lambda e: es[e][2])
-            mcases.append("S %s %d %s" % (" ".join(t[1:]), len(scan), " ".join(map(str, scan))))      # the model takes every spanner kind as S (weights are integers)
+                mcases.append("S %s %d %s" % (" ".join(t[1:]), len(scan), " ".join(map(str, scan))))      # the model takes every spanner kind as S (weights are integers)
         mo = lib.run_model("c15", mcases + hist)
         cases, mcases, io = cases + hist, mcases + hist, io + io_hist
         bad = []
@@ -216,7 +219,7 @@ def check(tier, seed):
             c.violation("spanner: " + judge(cases[i], io[i]), {"component": "c15", "case": cases[i], "impl": io[i]}, True)
     return c.finish(
         assumptions=["std::sort returns a weight-sorted permutation (which one is the oracle `scan`, universally quantified in the theorems)",
-                     "the scan order is recovered as 'merge by weight, retained before dropped on ties'; that this order reproduces the same retained/dropped sequences and is itself a weight-sorted permutation is Properties_C15_scan.C15_recovered_scan_reproduces (the Gallina merge_scan mirrors recover_scan by reading)",
+                     "the scan order is recovered as 'merge by weight, retained before dropped on ties'; that this order reproduces the same retained/dropped sequences and is itself a weight-sorted permutation is Properties_C15_scan.C15_recovered_scan_reproduces (merge_scan is extracted and run by the model driver itself, kind M: no Python re-implementation is trusted)",
                      "hook: PARMCB_VERIF read-only accessors of BaseApproxSpannerAlgorithm"],
         explanation="Theorem C15 holds for every simple graph, k >= 1 and every sorted scan order; this run compares retained/dropped lists, spanner endpoints "
                     "and spanner weights exactly and judges each answer against the property text (partition, weights, short light paths, girth).")
